@@ -16,6 +16,24 @@ Import ListNotations.
 Open Scope Z_scope.
 """
 
+HDR_RAY = """From Coq Require Import ZArith List Bool Reals PrimFloat.
+From FT.lib Require Import Num Arr ArrLemmas NumArr.
+From FT.gen Require Import Common Interp2d Interp3d FteikCommon Ray2d Ray3d.
+From FT.proofs Require Import NumFLaws Ray2dProofs.
+From FT.proofs Require Ray3dProofs.
+Import ListNotations.
+Open Scope Z_scope.
+"""
+
+HDR_SAFE = """From Coq Require Import ZArith List Bool Reals PrimFloat.
+From FT.lib Require Import Num Arr ArrLemmas NumArr.
+From FT.gen Require Import Common Interp2d Interp3d Vinterp2d Vinterp3d Fteik2d Fteik3d Ray2d Ray3d.
+From FT.proofs Require Import NumFLaws SafetyTools Safety2d SafetyInterp Ray2dProofs.
+From FT.proofs Require Safety3d Ray3dProofs.
+Import ListNotations.
+Open Scope Z_scope.
+"""
+
 SPEC = {
     "C14": {
         "title": "Grid evaluation is multilinear interpolation on the node axes (model: gen/Interp2d.v, gen/Interp3d.v)",
@@ -264,7 +282,7 @@ Open Scope Z_scope.
     },
     "C13": {
         "title": "Invalid requests are reported by raising, identically for single and list calls (model: gen/Fteik2d.v, gen/Fteik3d.v; ray kernels: see C10)",
-        "header": HDR_G.format(imports="From FT.proofs Require Import Solve2dProofs Solve3dProofs VectorizedProofs."),
+        "header": HDR_G.format(imports="From FT.gen Require Import Interp2d Interp3d FteikCommon Ray2d Ray3d.\nFrom FT.proofs Require Import Solve2dProofs Solve3dProofs VectorizedProofs Ray2dProofs.\nFrom FT.proofs Require Ray3dProofs."),
         "theorems": [
             ("single_solve2d_raises_iff_outside", "Solve2dProofs.fteik2d_raises_iff", "single solve: ValueError iff the source fails the domain test; otherwise it returns (no valid request raises)"),
             ("single_solve3d_raises_iff_outside", "Solve3dProofs.fteik3d_raises_iff", "3D"),
@@ -272,6 +290,67 @@ Open Scope Z_scope.
             ("list_solve3d_spec", "VectorizedProofs.fteik3d_vectorized_spec", "3D"),
             ("list_solve2d_raises_if_some_source_outside", "VectorizedProofs.solve2d_list_raises_iff_some_source_outside", "an outside source at any position of the list makes the list call raise ValueError"),
             ("list_solve2d_returns_map_of_singles", "VectorizedProofs.solve2d_list_is_map_of_singles", "and when every source is inside the list call returns the single results, in order"),
+            ("single_ray2d_value_error_iff_outside", "Ray2dProofs.ray2d_raises_value_error_iff", "single raytrace: ValueError iff the end point fails the hull test"),
+            ("list_ray2d_spec", "Ray2dProofs.ray2d_vectorized_spec", "list raytrace: the non-raising core mapped over the end points, then the first negative count decides the exception - nothing is raised from inside the parallel loop"),
+            ("list_ray2d_raises_like_first_failing_single", "Ray2dProofs.ray2d_list_raises_like_first_failing_single", "the list call raises e iff the first failing single call raises e, and returns the singles' results when none fails"),
+            ("list_ray3d_raises_like_first_failing_single", "Ray3dProofs.ray3d_list_raises_like_first_failing_single", "3D"),
+        ],
+        "examples": [],
+    },
+    "C10": {
+        "title": "Free-step rays run from source to receiver inside the grid (model: gen/Ray2d.v, gen/Ray3d.v; `while` loops are fuelled, and the theorems bound the fuel needed)",
+        "header": HDR_RAY,
+        "theorems": [
+            ("terminates_within_budget_2d", "Ray2dProofs.ray2d_free_terminates", "free-step mode: with fuel max_step + 1 the tracer never runs out of fuel - every iteration stores a vertex and the budget test stops it (every numeric instance)"),
+            ("terminates_within_budget_3d", "Ray3dProofs.ray3d_free_terminates", "3D"),
+            ("count_range_2d", "Ray2dProofs.ray2d_core_count_range", "what the core returns: count = -1 (end point outside), -2 (budget exhausted) or 1 <= count < max_step, and the buffer keeps its shape: a returned ray never exceeds the budget, never a truncated ray"),
+            ("count_range_3d", "Ray3dProofs.ray3d_core_count_range", "3D"),
+            ("endpoints_2d", "Ray2dProofs.ray2d_1_endpoints", "a returned polyline has count+1 rows, starts exactly at the source and ends exactly at the requested end point"),
+            ("endpoints_3d", "Ray3dProofs.ray3d_1_endpoints", "3D"),
+            ("vertices_in_hull_2d", "Ray2dProofs.ray2d_vertices_in_hull", "exact arithmetic: every stored vertex lies inside the grid hull (each new point is clamped), both modes"),
+            ("vertices_in_hull_3d", "Ray3dProofs.ray3d_vertices_in_hull", "3D"),
+            ("value_error_iff_outside_2d", "Ray2dProofs.ray2d_raises_value_error_iff", "ValueError exactly when the end point fails the hull test (modulo fuel)"),
+            ("nan_end_point_raises_2d", "Ray2dProofs.ray2d_nan_end_point_raises", "binary64: a NaN end point raises ValueError"),
+        ],
+        "examples": [],
+    },
+    "C15": {
+        "title": "Grid-honouring rays terminate (model: gen/Ray2d.v, gen/Ray3d.v): explicit fuel bound, contract of returned rays",
+        "header": HDR_RAY,
+        "theorems": [
+            ("terminates_2d", "Ray2dProofs.ray2d_honor_terminates", "grid-honouring mode: with fuel (max_step+1)*(nfree_max+2)+1 the tracer never runs out of fuel - every iteration either stores a vertex or counts one more step without a grid crossing, and either counter stops the loop (this is what fix 55db45e established; every numeric instance)"),
+            ("terminates_3d", "Ray3dProofs.ray3d_honor_terminates", "3D"),
+            ("terminates_either_mode_2d", "Ray2dProofs.ray2d_terminates", "the same bound holds for either mode"),
+            ("count_range_2d", "Ray2dProofs.ray2d_core_count_range", "returned count is -1, -2 or within the budget; RuntimeError is reported exactly through -2"),
+            ("endpoints_2d", "Ray2dProofs.ray2d_core_endpoints", "a returned ray: row 0 is the end point, row count is the source, buffer well formed"),
+            ("endpoints_3d", "Ray3dProofs.ray3d_core_endpoints", "3D"),
+            ("vertices_in_hull_2d", "Ray2dProofs.ray2d_vertices_in_hull", "exact arithmetic: every stored vertex lies inside the hull (clamping, grid magnetism and recomputed cell bounds included)"),
+            ("vertices_in_hull_3d", "Ray3dProofs.ray3d_vertices_in_hull", "3D"),
+        ],
+        "examples": [],
+    },
+    "C12": {
+        "title": "Memory safety of every compiled kernel: index obligations f_ok (wI = true) of the generated kernels hold for all shapes; for the ray buffers the value-semantics count range is the statement",
+        "header": HDR_SAFE,
+        "theorems": [
+            ("sweep_ok_2d", "Safety2d.sweep_ok_true", "one 2D node update performs only in-range accesses, for every shape with >= 2 nodes per axis (1-cell-thick models included), in each of the four direction patterns the passes use"),
+            ("sweep2d_ok", "Safety2d.sweep2d_ok_true", "a whole 2D pass (all four loop nests)"),
+            ("sweep_ok_3d", "Safety3d.sweep_ok_true", "one 3D node update, eight direction patterns"),
+            ("sweep3d_ok", "Safety3d.sweep3d_ok_true", "a whole 3D pass"),
+            ("sign_invariant_initially", "Safety2d.sgn_inv_zeros", "gradient bookkeeping invariant sgn_inv: signs in {-1,0,1}, +1 only where the upwind neighbour i-1 exists, -1 only where i+1 exists - holds initially"),
+            ("sign_invariant_through_initialisation", "Safety2d.init_preserves_sgn_inv", "through the off-node source initialisation"),
+            ("sign_invariant_through_sweeps", "Safety2d.sweep2d_preserves_sgn_inv", "and through every pass"),
+            ("gradient_assembly_ok", "Safety2d.assembly_ok_true", "hence the gradient assembly tt[i - sgn, j] only reads in range"),
+            ("assembly_is_the_generated_code", "Safety2d.fteik2d_ok_assembly", "(tie: assembly_ok is literally the obligation text inside the generated fteik2d_ok)"),
+            ("sweeps_and_assembly_ok", "Safety2d.tail_ok_true", "the nsweep loop followed by the assembly"),
+            ("interp2d_ok", "SafetyInterp.interp2d_ok_true", "point evaluation: in range for every query point, axes with >= 2 nodes (le_lt_law: a <= b implies not b < a, proved for reals and binary64 below)"),
+            ("interp3d_ok", "SafetyInterp.interp3d_ok_true", "3D"),
+            ("vinterp2d_ok", "SafetyInterp.vinterp2d_ok_true", "traveltime evaluation"),
+            ("vinterp3d_ok", "SafetyInterp.vinterp3d_ok_true", "3D"),
+            ("le_lt_law_binary64", "SafetyInterp.le_lt_law_F", "the order law used above holds for binary64"),
+            ("single_node_axis_refuted", "SafetyInterp.interp2d_ok_single_node_refuted", "the hypothesis 2 <= nx is needed: with a one-sample axis the kernel reads x[-2] out of range (known finding F13), witness by vm_compute"),
+            ("ray_buffer_2d", "Ray2dProofs.ray2d_core_count_range", "ray buffer: every returned count is below max_step and the buffer is never reshaped"),
+            ("ray_buffer_3d", "Ray3dProofs.ray3d_core_count_range", "3D"),
         ],
         "examples": [],
     },
